@@ -123,6 +123,18 @@ partial def step (s : St) (line : String) : St × String :=
               | .err e => (s, s!"err {e}")
               | .panic e => (s, s!"panic {e}")
       | _, _, _ => (s, "bad-op")
+  | ["delns", slot, k, v, steps] =>
+      -- a Delete interrupted in its height reduction after `steps` completed shrink() calls
+      match nat slot, nat k, nat v, nat steps with
+      | some i, some k, some v, some n =>
+          match s.trees[i]? with
+          | none => (s, "bad-slot")
+          | some m =>
+              match Tree.deleteInterrupted s.layer m k v n with
+              | .ok m' => ({ s with trees := s.trees.insert i m' }, s!"kf-del {m'.size} {m'.height}")
+              | .err e => (s, s!"err {e}")
+              | .panic e => (s, s!"panic {e}")
+      | _, _, _, _ => (s, "bad-op")
   | ["get", slot, k] =>
       match nat slot, nat k with
       | some i, some k =>
